@@ -69,6 +69,9 @@ def named(name) -> Dom:
 # prime-order toy curves (p, a, b): chosen to cover n<p, n>p, byte-aligned n,
 # orderlen(n) != orderlen(p) in both directions (like secp160r1 / none)
 TOY_PRIME = {
+    "t17x": (17, 2, 6),       # n=11 < p, has a point with x = n (r = x mod n = 0 although x != 0)
+    "t31x": (31, 1, 28),      # n=23 < p, point with x = n
+    "t101x": (101, 2, 36),    # n=97 < p, point with x = n
     "t13": (13, 2, 4),        # n=17
     "t23a": (23, 1, 4),       # n=29 > p
     "t23b": (23, 1, 19),      # n=19 < p
